@@ -139,6 +139,13 @@ def run(chk):
              ("f > #nometa", SelectorError, "undocumented meta-variable"),
              ("notfn > v", TypeError, "object that is not a function"),
              ("f(zz) > v", SelectorError, "context variable that occurs nowhere")]
+    # names that only LOOK like the documented meta-variables
+    for h in ("#enter", "#exit", "#value", "#error", "#yield", "#receive"):
+        for suffix in ("s", "_", "2", "ed", "_v"):
+            cases.append(("f > %s%s" % (h, suffix), SelectorError, "undocumented meta-variable with a documented prefix"))
+    cases += [("f > #loop", SelectorError, "loop marker without a variable"),
+              ("f > #endloop", SelectorError, "loop marker without a variable"),
+              ("f(#entered) > v", SelectorError, "undocumented meta-variable as context")]
     for sel, cls, what in cases:
         chk.count(("refusal", sel))
         try:
